@@ -4,6 +4,8 @@
  *   BLK A|E <uriHex> <userHex|-> <keyHex|->      KSI_CTX_setAggregator / setExtender        -> W ... lines, R rc=..
  *   ASY A|E <uriHex> <userHex|-> <keyHex|->      KSI_Signing/ExtendingAsyncService + setEndpoint
  *   SPLIT <uriHex>                               KSI_UriSplitBasic
+ *   BLK2 A|E <uri1> <user1> <key1> <uri2> <user2> <key2>   the SAME context is configured twice; after each call the endpoint the selected transport client has
+ *                                                STORED is read back (impl headers)  -> S transport=.. url|host,port|path user pass (x2), R rc=.. rc=..
  */
 #include <ksi/ksi.h>
 #include <ksi/net.h>
@@ -11,15 +13,23 @@
 #include <ksi/net_http.h>
 #include <ksi/net_tcp.h>
 #include <ksi/net_file.h>
+#include <ksi/impl/ctx_impl.h>
+#include <ksi/impl/net_impl.h>
+#include <ksi/net_uri.h>
+#include <ksi/impl/net_uri_impl.h>
+#include <ksi/impl/net_http_impl.h>
+#include <ksi/impl/net_tcp_impl.h>
+#include <ksi/impl/net_file_impl.h>
 #include "hx.h"
 
+static int quiet;      /* BLK2: the interposed entry points do not log */
 static void ps(const char *k, const char *v) { printf(" %s=", k); if (v == NULL) printf("NULL"); else hx_print((const unsigned char *)v, strlen(v)); }
 #define WRAP3(name, tag, a1) \
 	int __real_##name(void *c, const char *a, const char *u, const char *p); \
-	int __wrap_##name(void *c, const char *a, const char *u, const char *p) { printf("W " tag); ps(a1, a); ps("user", u); ps("pass", p); printf("\n"); return __real_##name(c, a, u, p); }
+	int __wrap_##name(void *c, const char *a, const char *u, const char *p) { if (!quiet) { printf("W " tag); ps(a1, a); ps("user", u); ps("pass", p); printf("\n"); } return __real_##name(c, a, u, p); }
 #define WRAP4(name, tag) \
 	int __real_##name(void *c, const char *h, unsigned port, const char *u, const char *p); \
-	int __wrap_##name(void *c, const char *h, unsigned port, const char *u, const char *p) { printf("W " tag); ps("host", h); printf(" port=%u", port); ps("user", u); ps("pass", p); printf("\n"); return __real_##name(c, h, port, u, p); }
+	int __wrap_##name(void *c, const char *h, unsigned port, const char *u, const char *p) { if (!quiet) { printf("W " tag); ps("host", h); printf(" port=%u", port); ps("user", u); ps("pass", p); printf("\n"); } return __real_##name(c, h, port, u, p); }
 WRAP3(KSI_HttpClient_setAggregator, "http", "url")
 WRAP3(KSI_HttpClient_setExtender, "http", "url")
 WRAP3(KSI_FsClient_setAggregator, "file", "path")
@@ -50,6 +60,26 @@ int main(void) {
 			}
 			printf("R rc=%d\n", rc);
 			free(uri); free(user); free(key);
+		} else if (!strcmp(tok[0], "BLK2")) {
+			int k, aggr = tok[1][0] == 'A';
+			quiet = 1;
+			printf("R");
+			for (k = 0; k < 2; k++) {
+				char *uri = arg(tok[2 + 3 * k]), *user = arg(tok[3 + 3 * k]), *key = arg(tok[4 + 3 * k]);
+				int rc = aggr ? KSI_CTX_setAggregator(ctx, uri, user, key) : KSI_CTX_setExtender(ctx, uri, user, key);
+				KSI_UriClient *uc = (KSI_UriClient *)ctx->netProvider->impl; KSI_NetworkClient *cl = aggr ? uc->pAggregationClient : uc->pExtendClient;
+				KSI_NetEndpoint *ep = cl ? (aggr ? cl->aggregator : cl->extender) : NULL;
+				printf(" rc=%d", rc);
+				if (rc == KSI_OK && ep != NULL) {
+					if (cl == uc->httpClient) { printf(" S transport=http"); ps("url", ((struct HttpClient_Endpoint_st *)ep->implCtx)->url); }
+					else if (cl == uc->tcpClient) { printf(" S transport=tcp"); ps("host", ((struct TcpClient_Endpoint_st *)ep->implCtx)->host); printf(" port=%u", ((struct TcpClient_Endpoint_st *)ep->implCtx)->port); }
+					else { printf(" S transport=file"); ps("path", ((struct FsClient_Endpoint_st *)ep->implCtx)->path); }
+					ps("user", ep->ksi_user); ps("pass", ep->ksi_pass);
+				}
+				printf(" ;");
+				free(uri); free(user); free(key);
+			}
+			printf("\n"); quiet = 0;
 		} else if (!strcmp(tok[0], "SPLIT")) {
 			char *uri = arg(tok[1]); char *sc = NULL, *h = NULL, *p = NULL; unsigned port = 0;
 			int rc = KSI_UriSplitBasic(uri, &sc, &h, &port, &p);
